@@ -156,6 +156,8 @@ def run(ctx):
             cm = [mgh.local_search_map(rng, DX, DY), mgh.local_search_map(rng, DY, DX)]
         items.append(mgh.mk_pair_item(gx, gy, mgh.CANON, mgh.CANON, seed=rng.randrange(1000), order=orders[t % 4], exact=False, owner="C05", iso=iso, cmaps=cm))
     mgh.validate(ctx, items, "V-certificates", "C05")
+    # more than 127 vertices with a small diameter (the distance matrix lives in int8 while counts and sort keys do not fit it)
+    mgh.validate(ctx, mgh.many_vertices_items(rng, "C05", quick), "V-many-vertices-small-diameter", "C05", nproc=8)
 
 
 def replay(ctx, rec):
@@ -166,5 +168,5 @@ def replay(ctx, rec):
         return
     g = j["graphs"]
     it = mgh.mk_pair_item((g[0]["n"], [tuple(e) for e in g[0]["edges"]]), (g[1]["n"], [tuple(e) for e in g[1]["edges"]]), g[0]["repr"], g[1]["repr"],
-                          j.get("seed", 0), j.get("order"), bool(c.get("exact", 1)), c.get("owner", "C05"))
+                          j.get("seed", 0), j.get("order"), bool(c.get("exact", 1)), c.get("owner", "C05"), iso=c.get("iso"), cmaps=c.get("cmaps"))
     mgh.validate(ctx, [it], "replay", ctx.pid, nproc=1)
